@@ -5,7 +5,7 @@ from vlib import log, ROOT
 
 TRUSTED = [
     "Lean 4.33.0 kernel; axioms allowed: propext, Classical.choice, Quot.sound (audited with #print axioms on every run)",
-    "tools/translate.py (Rust tokenizer + extraction of tables, constants and match arms into lean/Dsi/Gen)",
+    "tools/translate*.py (Rust tokenizer; extraction of tables, constants and match-arm lists; statement-by-statement translation of the method bodies of BufBitWriter, BufBitReader, BitReader, the len_* functions and the straight-line code writers/readers into lean/Dsi/Gen; fail closed)",
     "correspondence check: harness/ (Rust, runs the real library), lean/Main.lean driver (compiled Lean model), tools/gen.py generators, tools/vlib.py comparison",
     "Lean compiler for the driver (differential leg only)",
     "rustc/LLVM, core/std integer primitives, std::io, common_traits casts",
@@ -13,7 +13,7 @@ TRUSTED = [
 
 
 class Prop:
-    def __init__(self, pid, gens, note, builds=(((), 'release'),), ignore_ops=(), extra=None, timeout=90):
+    def __init__(self, pid, gens, note, builds=(((), 'release'),), ignore_ops=(), extra=None, timeout=300):
         self.pid, self.gens, self.note, self.builds, self.ignore_ops, self.extra, self.timeout = pid, gens, note, builds, ignore_ops, extra, timeout
 
 
